@@ -377,6 +377,8 @@ def check_property(prop, tier, seed):
         trusted += ['[%s] %s' % (uname, t) for t in scan_trusted(unit)]
         for r, c in unit.rule_counts.items():
             rule_apps['%s:%s' % (uname, r)] = c
+        if unit.rule_warnings:
+            rule_apps['%s:warnings' % uname] = unit.rule_warnings
         # samples: labelled obligations of tagged functions
         for ln, (props, label) in sorted(unit.labels.items()):
             if prop in props and len(samples) < 12:
